@@ -263,8 +263,10 @@ func ruleR13(c *Ctx, prop string) {
 		// D4 is judged together with D6 below
 		c.checkD4(rs, di)
 	}
-	// D5: only the supported cases reach tensor construction
-	c.checkD5(di, byName)
+	// D5: only the supported cases reach tensor construction (a C12 clause; not a crash)
+	if full {
+		c.checkD5(di, byName)
+	}
 	// D6: count/dims gate
 	ok, why := c.checkD6(di)
 	c.decide(ok, "R13", "R13:D6", c.pos(di.newCall.Pos()), "every path to tensor construction passes rejecting checks: each dim >= 1 and element count == product of dims", why)
